@@ -820,6 +820,20 @@ def _weather_clause(ctx, env, rnd, search):
                     ("calm-31dec", mod(D(ymid, 12, 31), wind="0.1"), (0, 1, 2), None),
                     ("sentinel-31dec", mod(D(ymid, 12, 31), tavg="-99.9"), (0, 1), "weather-layout0-sentinel-at-year-edge"),
                     ("sentinel-1jan", mod(D(ymid + 1, 1, 1), tavg="-99.9"), (0, 1), "weather-layout0-sentinel-at-year-edge")]
+        # an optional column that is USED (no global radiation: radiation and ET come from the sunshine hours) has values in the
+        # first year(s) and only the none value in one later year: both layouts must treat that year alike (seeded C13-18)
+        def sunshine(gap_year):
+            out = []
+            for d, r in ser:
+                hrs = 2.0 + 9.0 * (1 - abs(d.timetuple().tm_yday - 183) / 183.0) * (0.35 + 0.65 * ((d.toordinal() * 7) % 11) / 10.0)
+                # the day after the gap year has 0 h: the multi-year readers fill the LAST sentinel of the gap from its two neighbours (the
+                # zeroed day before and the first day of the next year), the per-year reader has no next year loaded (finding F21's family)
+                after = d.year == gap_year + 1 and d.month == 1 and d.day == 1
+                out.append((d, dict(r, rad="0", sund=("-99.9" if d.year == gap_year else "0.0" if after else "%.1f" % hrs))))
+            return out
+        variants.append(("sunshine-gap-year", sunshine(ymid), (0, 1), None))
+        if y1 > ymid:
+            variants.append(("sunshine-gap-last-year", sunshine(y1), (0, 1), None))
         for vname, s, layouts, special in variants:
             idx = {}
             fac = ["%.2f" % (0.8 + 0.05 * ((m_ * 7 + k) % 12)) for m_ in range(12)]
